@@ -164,6 +164,8 @@ pub enum Op {
     InvalidateIf { p: Pred },
     Advance { ns: u64 },
     Sync,
+    /// `n` gets of the same key in a row (a read burst: more recorded reads than the read log holds)
+    Gets { k: u32, n: u32 },
     /// the `nth` call of a callback of the caller (site: 0 V::clone, 1 weigher, 2 predicate)
     /// during the next operation panics
     ArmFault { site: u8, nth: u32 },
@@ -183,6 +185,7 @@ impl Op {
             Op::Advance { ns } => format!("advance {}", ns),
             Op::Sync => "sync".into(),
             Op::ArmFault { site, nth } => format!("arm_fault {} {}", site, nth),
+            Op::Gets { k, n } => format!("gets {} {}", k, n),
         }
     }
 
@@ -208,6 +211,7 @@ impl Op {
             "advance" => Op::Advance { ns: num()? },
             "sync" => Op::Sync,
             "arm_fault" => Op::ArmFault { site: num()? as u8, nth: num()? as u32 },
+            "gets" => Op::Gets { k: num()? as u32, n: num()? as u32 },
             _ => return None,
         })
     }
@@ -225,6 +229,7 @@ impl Op {
             Op::Advance { .. } => "advance",
             Op::Sync => "sync",
             Op::ArmFault { .. } => "arm_fault",
+            Op::Gets { .. } => "get",
         }
     }
 }
